@@ -1,0 +1,21 @@
+//go:build verif
+
+// Verification hook for property C09 (add-only, compiled only with -tags verif): the fields a
+// setvar action was initialised with.
+
+package actions
+
+import (
+	"github.com/corazawaf/coraza/v3/experimental/plugins/macro"
+	"github.com/corazawaf/coraza/v3/experimental/plugins/plugintypes"
+)
+
+// VerifC09Setvar returns the compiled key and value macros (value nil when the action has no
+// "=value" part) and the removal flag of a setvar action; ok is false for any other action.
+func VerifC09Setvar(a plugintypes.Action) (key, value macro.Macro, isRemove, ok bool) {
+	s, is := a.(*setvarFn)
+	if !is {
+		return nil, nil, false, false
+	}
+	return s.key, s.value, s.isRemove, true
+}
